@@ -20,7 +20,7 @@ def make_input(form, path, text, cl, store):
     """the same annotation in the given form (fresh object every time: one-shot forms are consumed)"""
     import gffutils
     from gffutils.feature import feature_from_line
-    lines = [l for l in text.splitlines() if l and not l.startswith("#")]
+    lines = [l for l in text.split("\n") if l and not l.startswith("#")]       # (split at \n only: NEL, LS, PS inside a value are not line ends)
     if form == "path":
         return path
     if form == "gz":
